@@ -26,7 +26,7 @@ theorem import_of_generated (crypto : Bool) (i : CertInputs)
     (h : importCa crypto (CertDecode.modelTbs i) = .ok p')
     (hpl : ∀ n, i.p.isCa = .ca (some n) → n ≤ 255)
     (hip : ∀ o, SanType.ip o ∈ i.p.sans → o.length = 4 ∨ o.length = 16)
-    (hother : ∀ oid v, SanType.otherName oid v ∈ i.p.sans → utf8Valid v = true)
+    (hother : ∀ oid v, SanType.otherName oid v ∈ i.p.sans → utf8Valid v = true ∧ ∀ x ∈ oid, x < 2 ^ 64)
     (hnc : ∀ nc, i.p.nameConstraints = some nc →
       nc.permitted.all subtreeSupported = true ∧ nc.excluded.all subtreeSupported = true) :
     reqName p'.dn.iter = reqName i.p.dn.iter ∧
@@ -50,7 +50,7 @@ theorem issued_from_imported_names_issuer (crypto : Bool) (ca : CertInputs)
     (h : importCa crypto (CertDecode.modelTbs ca) = .ok p')
     (hpl : ∀ n, ca.p.isCa = .ca (some n) → n ≤ 255)
     (hip : ∀ o, SanType.ip o ∈ ca.p.sans → o.length = 4 ∨ o.length = 16)
-    (hother : ∀ oid v, SanType.otherName oid v ∈ ca.p.sans → utf8Valid v = true)
+    (hother : ∀ oid v, SanType.otherName oid v ∈ ca.p.sans → utf8Valid v = true ∧ ∀ x ∈ oid, x < 2 ^ 64)
     (hnc : ∀ nc, ca.p.nameConstraints = some nc →
       nc.permitted.all subtreeSupported = true ∧ nc.excluded.all subtreeSupported = true)
     (leaf : CertParams) (leafKey caKey : PubKey) (H : Hashes) :
@@ -98,7 +98,7 @@ theorem validity_recovered (t : Int) : (dateTimeOfEpoch t).epochSeconds = t :=
     otherName text valid UTF-8) -/
 theorem san_recovered (s : SanType)
     (hip : ∀ o, s = .ip o → o.length = 4 ∨ o.length = 16)
-    (hother : ∀ oid v, s = .otherName oid v → utf8Valid v = true) :
+    (hother : ∀ oid v, s = .otherName oid v → utf8Valid v = true ∧ ∀ x ∈ oid, x < 2 ^ 64) :
     importSan (reqSan s) = .ok s := ImportFields.san_recovered s hip hother
 
 /-- supported name-constraint subtrees, any number, permitted or excluded alike: recovered in order -/
